@@ -872,7 +872,7 @@ def gen_sequences(ctx):
                 st = steps[:i] + [{'call': f}] + steps[i:]
                 seqs.append({'files': FILES, 'steps': st, 'tag': 'inject-configure@%d' % i, 'base': bid, 'inject_call': i})
     # (b) random mixes: valid, failing, edits of project files, fatal requests at the end
-    for j in range(ctx.pick(60, 900)):
+    for j in range(ctx.pick(50, 900)):
         n = rng.randint(1, maxlen)
         steps = []
         nfail = 0
